@@ -98,7 +98,7 @@ CHAINF = ["DecArith.tla", "MinterMath.tla", "Minter.tla", "Distributor.tla", "Ch
 CHAIN_TRACE = {"name": "chain-trace", "kind": "trace", "files": CHAINF + ["trace/Trace_Chain.tla"], "module": "trace/Trace_Chain.tla",
                "cfg": "trace/Trace_Chain.cfg", "recorder": "trace-chain", "corrupt_event": "block", "corrupt_field": None, "corrupt_path": ["post", "supply", "uc4e"],
                "header": {"files": CHAINF, "module": "mc/MBT_Chain.tla", "cfg": "mc/MBT_Chain_header.cfg"},
-               "default_owner": "C01", "event_owner": {"block": "C01", "update": "C13", "configure": "C13", "fee": "C03", "opaque": "C01", "export": "C12"},
+               "default_owner": "C01", "event_owner": {"block": "C01", "update": "C13", "failedtx": "C13", "configure": "C13", "fee": "C03", "opaque": "C01", "export": "C12"},
                "diag_owner": [("ok", None), ("supply", "C01"), ("minter", "C02"), ("bal", "C04"), ("rem", "C03")],
                "invariant_owner": {"SupplyLedger": "C01", "BooksMatch": "C03", "NeverHalts": "C10", "CurrentPeriodExists": "C13",
                                    "SupplyOnlyInBlocks": "C01", "SupplyDeltaIsMintMinusBurn": "C01"},
